@@ -564,6 +564,13 @@ func (r *upRun) script(seq []string, rng *rand.Rand) {
 			}
 		case "X":
 			r.restart(time.Hour)
+		case "J":
+			// NOT in the alphabet (membership changes are outside C37's quantifier); only reachable with -only.
+			// A configuration entry is committed after the last write: raft then refuses to snapshot
+			// ("wait until the configuration entry ... has been applied"), which Store.Backup tolerates.
+			if err := w.s.Join(&proto.JoinRequest{Id: fmt.Sprintf("ghost%d", upQN.Add(1)), Address: fmt.Sprintf("127.0.0.1:%d", 1+upQN.Add(1)), Voter: false}); err != nil {
+				w.setFail(fmt.Errorf("join: %w", err))
+			}
 		}
 	}
 	r.prov.afterRead, r.prov.before, r.prov.afterwards = nil, nil, nil
